@@ -7,7 +7,7 @@ miss=0
 for d in seeded/*/; do
   name=$(basename $d)
   prop=$(python3 -c "import json;print(json.load(open('$d/meta.json'))['breaks_property'])" 2>/dev/null)
-  git -C /repo apply $d/patch.diff || { echo "$name: PATCH DOES NOT APPLY"; continue; }
+  git -C /repo apply /verif/${d}patch.diff || { echo "$name: PATCH DOES NOT APPLY"; continue; }
   out=$(./check $prop --tier quick 2>&1)
   git -C /repo checkout -- .
   if echo "$out" | grep -q "^VIOLATION property=$prop"; then echo "$name: CAUGHT by $prop ($(echo "$out" | grep -m1 '^DETAIL' | cut -c1-100))";
